@@ -45,7 +45,8 @@ def run(ctx):
         designs.append(("permute " + str(v), "permute", lambda g, arr=arr: tuple(utils.permute(arr, g).tolist()),
                         multiset_perms(v), tuple((len(v) - i, "fy") for i in range(len(v)))))
     # permute_within_groups
-    for x, grp in (([1, 2, 3, 4], [0, 0, 1, 1]), ([1, 2, 3, 4, 5], [2, 1, 2, 1, 2]), ([7, 7, 8, 9], [1, 1, 1, 2])):
+    for x, grp in (([1, 2, 3, 4], [0, 0, 1, 1]), ([1, 2, 3, 4, 5], [2, 1, 2, 1, 2]), ([7, 7, 8, 9], [1, 1, 1, 2]),
+                   ([1, 2, 3, 4], ["a", "A", "a", "A"]), ([1, 2, 3, 4, 5], ["s1", "s1 ", "s1", "S1", "s1 "]), ([1, 2, 3, 4], [0.5, 0.25, 0.5, 0.25])):      # text labels that differ only in case / padding; fractional labels
         xa, ga = np.array(x), np.array(grp)
         labs = sorted(set(grp))
         adm = set()
